@@ -1,31 +1,193 @@
 /-
-  C10 — Attack and line tables are exact for every square and occupancy.
-  FULL STATEMENT: `Spec.LookupExact LookupTable.init` (Spec/Geometry.lean).  Interim obligations that are
-  already discharged are below; the per-square kernel enumeration is in Lemmas/Magic* when present.
+  C10 — the attack and line tables are exact.
+
+  * `rook_lookup_eq_walk` / `bishop_lookup_eq_walk`: for every square and EVERY 64-bit occupancy the
+    magic-bitboard lookup equals the ray walk of `generate_*_attack_mask(.., block = true)`.
+  * `walk_eq_sliderReach`: that ray walk is the geometric slider reach of Spec/Geometry.
+  * `lookup_exact : Spec.LookupExact LookupTable.init` — rook, bishop, queen, knight, king, segment, line.
+
+  Finite parts, all evaluated by the kernel (`decide +kernel`, `Nat` arithmetic only) in
+  Flounder/Lemmas/MagicCheck/*: all 107 648 mask subsets (index in range, no destructive collision,
+  relevant-bit counts = popcount of the mask), ray geometry for 64 × 64 × 2 pairs, leaper tables for
+  64 × 64 × 2 pairs, between tables for 64³ × 2 triples.  Symbolic parts (every `occ : UInt64`):
+  Flounder/Lemmas/MagicSound (ray decomposition, subset enumeration by `occupancyBoard`, table build,
+  collision table), MagicGeom, LookupLines, Leapers.
 -/
+import Flounder.Lemmas.MagicSound
+import Flounder.Lemmas.MagicGeom
+import Flounder.Lemmas.LookupLines
+import Flounder.Lemmas.Leapers
+import Flounder.Lemmas.MagicCheck.All
+import Flounder.Lemmas.MagicCheck.GeomR
+import Flounder.Lemmas.MagicCheck.GeomB
+import Flounder.Lemmas.MagicCheck.Leapers
+import Flounder.Lemmas.MagicCheck.LinesAll
 import Flounder.Spec.Geometry
 
 namespace Flounder.Props.C10
-open Flounder Gen
+open Flounder Flounder.MagicProof Flounder.Spec
 
-/-- FULL STATEMENT of the property for the model. -/
-def TablesExact : Prop := Spec.LookupExact LookupTable.init
+theorem getD_map_range {α : Type} (f : Nat → α) (d : α) (sq : Nat) (h : sq < 64) :
+    (((List.range 64).map f).toArray).getD sq d = f sq := by
+  simp [Array.getD, h]
 
-/-- every magic index fits its table: `index < 2^bits ≤ table size` for all 64 squares, both pieces
-    (re-decided whenever a relevant-bits entry or a table size in magic.rs changes). -/
-theorem index_fits_table :
-    (∀ sq, sq < 64 → 2 ^ ROOK_RELEVANT_BITS.getD sq 0 ≤ ROOK_TABLE_SIZE) ∧
-    (∀ sq, sq < 64 → 2 ^ BISHOP_RELEVANT_BITS.getD sq 0 ≤ BISHOP_TABLE_SIZE) := by
-  decide
+theorem foldl_set_size (L : List Nat) (f : Nat → Nat) (g : Nat → UInt64) (t0 : Array UInt64) :
+    (L.foldl (fun t i => t.setIfInBounds (f i) (g i)) t0).size = t0.size := by
+  induction L generalizing t0 with
+  | nil => rfl
+  | cons a L ih => rw [List.foldl_cons, ih, Array.size_setIfInBounds]
 
-/-- the shift amount `64 - bits` is a legal u64 shift (0 < bits ≤ 12). -/
-theorem shift_amount_ok :
-    (∀ sq, sq < 64 → 0 < ROOK_RELEVANT_BITS.getD sq 0 ∧ ROOK_RELEVANT_BITS.getD sq 0 ≤ 12) ∧
-    (∀ sq, sq < 64 → 0 < BISHOP_RELEVANT_BITS.getD sq 0 ∧ BISHOP_RELEVANT_BITS.getD sq 0 ≤ 9) := by
-  decide
+/-! ### lookup = walk (main theorems) -/
 
-/-- queen lookups are the union of the rook and bishop lookups. -/
-theorem queen_is_union (l : LookupTable) (s : Nat) (occ : UInt64) :
-    l.slidingMoves s occ .queen = l.slidingMoves s occ .bishop ||| l.slidingMoves s occ .rook := rfl
+/-- `get_rook_attacks` is the blocked ray walk, for every occupancy. -/
+theorem rook_lookup_eq_walk (sq : Nat) (h : sq < 64) (occ : UInt64) :
+    Magic.new.getRookAttacks sq occ = rookAttackMask sq occ true := by
+  unfold Magic.getRookAttacks Magic.new
+  simp only [getD_map_range _ _ sq h]
+  exact checkSquare_sound false sq (Check.rook_all sq h) occ
+
+/-- `get_bishop_attacks` is the blocked ray walk, for every occupancy. -/
+theorem bishop_lookup_eq_walk (sq : Nat) (h : sq < 64) (occ : UInt64) :
+    Magic.new.getBishopAttacks sq occ = bishopAttackMask sq occ true := by
+  unfold Magic.getBishopAttacks Magic.new
+  simp only [getD_map_range _ _ sq h]
+  exact checkSquare_sound true sq (Check.bishop_all sq h) occ
+
+/-- bits of the occupancy outside the relevant mask never matter for the walk. -/
+theorem walk_mask_irrelevant (b : Bool) (sq : Nat) (h : sq < 64) (occ : UInt64) :
+    attackMask b sq occ true = attackMask b sq (occ &&& attackMask b sq 0 false) true := by
+  have hc : checkSquare b sq = true := by
+    cases b
+    · exact Check.rook_all sq h
+    · exact Check.bishop_all sq h
+  rw [← checkSquare_sound b sq hc occ, ← checkSquare_sound b sq hc (occ &&& attackMask b sq 0 false),
+    and_mask_idem]
+
+/-- the table build never writes out of range (the Rust code would panic there). -/
+theorem build_index_in_range (b : Bool) (sq : Nat) (h : sq < 64) (occ : UInt64) :
+    magicIndex b sq (occ &&& attackMask b sq 0 false) < (buildSquareTable b sq).size := by
+  have hc : checkSquare b sq = true := by
+    cases b
+    · exact Check.rook_all sq h
+    · exact Check.bishop_all sq h
+  obtain ⟨_, _, hrun⟩ := checkSquare_iff b sq hc
+  have hgood := run_good _ _ _ _ (pairsOf_bound b sq) hrun
+  have hsz : (buildSquareTable b sq).size = tableSize b := by
+    unfold buildSquareTable
+    simp only [foldl_set_size, Array.size_replicate]
+  rw [hsz, magicIndex_eq]
+  exact (hgood _ (mem_pairsOf b sq hc occ)).1
+
+/-- every write of `init_slider_attacks` is in range (no Rust index panic during the build). -/
+theorem build_writes_in_range (b : Bool) (sq : Nat) (h : sq < 64) (i : Nat) :
+    magicIndex b sq (occupancyBoard i (attackMask b sq 0 false)) < tableSize b := by
+  have hsub : occupancyBoard i (attackMask b sq 0 false) &&& attackMask b sq 0 false =
+      occupancyBoard i (attackMask b sq 0 false) := by
+    apply bb_ext
+    intro s hs
+    rw [hasSq_and _ _ _ hs]
+    cases hj : hasSq (occupancyBoard i (attackMask b sq 0 false)) s
+    · rfl
+    · rw [occupancyBoard_subset i _ s hs hj]; rfl
+  have := build_index_in_range b sq h (occupancyBoard i (attackMask b sq 0 false))
+  rw [hsub] at this
+  have hsz : (buildSquareTable b sq).size = tableSize b := by
+    unfold buildSquareTable
+    simp only [foldl_set_size, Array.size_replicate]
+  rw [hsz] at this
+  exact this
+
+/-! ### walk = geometric reach -/
+
+/-- the blocked ray walk reaches exactly the aligned squares with nothing strictly in between. -/
+theorem walk_eq_sliderReach (diag : Bool) (s t : Nat) (hs : s < 64) (ht : t < 64) (occ : UInt64) :
+    hasSq (attackMask diag s occ true) t = sliderReach diag occ s t := by
+  have hall : (List.range 64).all (geomCheckSq diag) = true := by
+    cases diag
+    · exact Check.geom_rook
+    · exact Check.geom_bishop
+  have hsq := List.all_eq_true.mp hall s (List.mem_range.mpr hs)
+  unfold geomCheckSq at hsq
+  rw [Bool.and_eq_true] at hsq
+  exact geom_sound diag s t ht hsq.1 (List.all_eq_true.mp hsq.2 t (List.mem_range.mpr ht)) occ
+
+theorem rook_walk_eq_sliderReach (s t : Nat) (hs : s < 64) (ht : t < 64) (occ : UInt64) :
+    hasSq (rookAttackMask s occ true) t = sliderReach false occ s t :=
+  walk_eq_sliderReach false s t hs ht occ
+
+theorem bishop_walk_eq_sliderReach (s t : Nat) (hs : s < 64) (ht : t < 64) (occ : UInt64) :
+    hasSq (bishopAttackMask s occ true) t = sliderReach true occ s t :=
+  walk_eq_sliderReach true s t hs ht occ
+
+theorem rook_lookup_exact (s t : Nat) (hs : s < 64) (ht : t < 64) (occ : UInt64) :
+    hasSq (Magic.new.getRookAttacks s occ) t = sliderReach false occ s t := by
+  rw [rook_lookup_eq_walk s hs]; exact rook_walk_eq_sliderReach s t hs ht occ
+
+theorem bishop_lookup_exact (s t : Nat) (hs : s < 64) (ht : t < 64) (occ : UInt64) :
+    hasSq (Magic.new.getBishopAttacks s occ) t = sliderReach true occ s t := by
+  rw [bishop_lookup_eq_walk s hs]; exact bishop_walk_eq_sliderReach s t hs ht occ
+
+/-! ### leapers -/
+
+theorem knight_table_exact (s t : Nat) (hs : s < 64) (ht : t < 64) :
+    hasSq (knightAttacksGen s) t = knightStep s t :=
+  leaperCheck_sound _ _ Check.knight_ok s t hs ht
+
+theorem king_table_exact (s t : Nat) (hs : s < 64) (ht : t < 64) :
+    hasSq (kingAttacksGen s) t = kingStep s t :=
+  leaperCheck_sound _ _ Check.king_ok s t hs ht
+
+/-! ### between tables -/
+
+theorem inclusive_exact (s t u : Nat) (hs : s < 64) (ht : t < 64) (hu : u < 64) :
+    hasSq (inclusiveBetweenGen Magic.new s t) u = onSegment s t u := by
+  rw [inclusiveBetweenGen_eq, hasSq_lineCore _ _ _ _ s t u hs ht hu]
+  simp only [rook_lookup_exact s _ hs ht, rook_lookup_exact s _ hs hu, rook_lookup_exact t _ ht hu,
+    bishop_lookup_exact s _ hs ht, bishop_lookup_exact s _ hs hu, bishop_lookup_exact t _ ht hu,
+    sliderReach_eq_reachN, sqBB_toNat]
+  have h := Check.seg_all s hs
+  unfold segCheck at h
+  simp only [List.all_eq_true, List.mem_range, beq_iff_eq] at h
+  exact h t ht u hu
+
+theorem exclusive_exact (s t u : Nat) (hs : s < 64) (ht : t < 64) (hu : u < 64) :
+    hasSq (exclusiveBetweenGen Magic.new s t) u = onLine s t u := by
+  rw [exclusiveBetweenGen_eq, hasSq_lineCore _ _ _ _ s t u hs ht hu]
+  simp only [rook_lookup_exact s _ hs ht, rook_lookup_exact s _ hs hu, rook_lookup_exact t _ ht hu,
+    bishop_lookup_exact s _ hs ht, bishop_lookup_exact s _ hs hu, bishop_lookup_exact t _ ht hu,
+    sliderReach_eq_reachN]
+  have h := Check.line_all s hs
+  unfold lineCheck at h
+  simp only [List.all_eq_true, List.mem_range, beq_iff_eq] at h
+  exact h t ht u hu
+
+/-! ### the interface theorem -/
+
+/-- **C10**: the tables built by `LookupTable::init()` are exact. -/
+theorem lookup_exact : LookupExact LookupTable.init where
+  rook := fun s t occ hs ht => rook_lookup_exact s t hs ht occ
+  bishop := fun s t occ hs ht => bishop_lookup_exact s t hs ht occ
+  queen := fun s t occ hs ht => by
+    show hasSq (Magic.new.getBishopAttacks s occ ||| Magic.new.getRookAttacks s occ) t = _
+    rw [hasSq_or _ _ _ ht, rook_lookup_exact s t hs ht, bishop_lookup_exact s t hs ht, Bool.or_comm]
+  knight := fun s t hs ht => by
+    show hasSq ((((List.range 64).map knightAttacksGen).toArray).getD s 0) t = _
+    rw [getD_map_range _ _ s hs]; exact knight_table_exact s t hs ht
+  king := fun s t hs ht => by
+    show hasSq ((((List.range 64).map kingAttacksGen).toArray).getD s 0) t = _
+    rw [getD_map_range _ _ s hs]; exact king_table_exact s t hs ht
+  segment := fun s t u hs ht hu => by
+    show hasSq (((((List.range 64).map fun f => ((List.range 64).map fun t =>
+      inclusiveBetweenGen Magic.new f t).toArray).toArray).getD s #[]).getD t 0) u = _
+    rw [getD_map_range _ _ s hs, getD_map_range _ _ t ht]; exact inclusive_exact s t u hs ht hu
+  line := fun s t u hs ht hu => by
+    show hasSq (((((List.range 64).map fun f => ((List.range 64).map fun t =>
+      exclusiveBetweenGen Magic.new f t).toArray).toArray).getD s #[]).getD t 0) u = _
+    rw [getD_map_range _ _ s hs, getD_map_range _ _ t ht]; exact exclusive_exact s t u hs ht hu
+
+/-- `queen = rook ∪ bishop` at the level of bitboards. -/
+theorem queen_eq_union (s : Nat) (occ : UInt64) :
+    LookupTable.init.slidingMoves s occ .queen =
+      LookupTable.init.slidingMoves s occ .bishop ||| LookupTable.init.slidingMoves s occ .rook := rfl
 
 end Flounder.Props.C10
